@@ -1,6 +1,8 @@
 """C06 — conditional (304) and range (206/416) responses of webob.Response.conditional_response_app.
 
 Tie to the source
+  * gen(): the ASTs of byterange._is_content_range_valid and Range.range_for_length are dumped into
+    coq/Gen/C06_byterange.v on every run; Proofs/C06_gen.v proves that interpreting them equals the model;
   * correspondence of the Gallina models coq/Model/C06_*.v with the real code on generated inputs:
     AppIterRange (exact yield sequence), FileIter.app_iter_range, Range.parse / str(Range),
     _is_content_range_valid, Range.content_range / str(ContentRange), and the whole
@@ -587,6 +589,86 @@ def rand_case(rng, maxlen=10, iters=("list", "gen", "file", "wrapper")):
     return case
 
 
+# =========================================================================== structured sweeps
+# (1) every body up to a small length x every chunking (one empty chunk anywhere) x structured ranges x GET/HEAD
+def gen_slices(ctx):
+    maxlen = ctx.scale(4, 7)
+    for L in range(0, maxlen + 1):
+        data = bytes(range(65, 65 + L))
+        cks = chunkings(data, with_empty=(L <= 4))
+        texts_ = range_texts(L)
+        for cs in cks:
+            for t in texts_:
+                for method in ("GET", "HEAD"):
+                    yield {"method": method, "status": "200 OK", "chunks": [c.hex() for c in cs], "range": t}
+        for kind in ("gen", "file", "wrapper"):
+            for bs in (1, 2, 3):
+                for t in texts_:
+                    yield {"method": "GET", "status": "200 OK", "chunks": [data.hex()], "range": t, "iter": kind, "bs": bs}
+
+# (2) every Range text "bytes"+w, w over a small alphabet, on 1- and 4-byte bodies
+def gen_texts(ctx):
+    alpha_ = "019-=, "
+    maxw = ctx.scale(5, 7)
+    for n_ in range(0, maxw + 1):
+        for w in itertools.product(alpha_, repeat=n_):
+            t = "bytes" + "".join(w)
+            # only texts that get as far as "bytes=" modulo blanks can be honoured by anybody;
+            # the others are sampled 1 in 8
+            if "=" not in t and (zlib.crc32(t.encode()) & 7):
+                continue
+            yield {"method": "GET", "status": "200 OK", "chunks": ["4142", "4344"], "range": t}
+    for t in MALFORMED + LENIENT:
+        for method in ("GET", "HEAD"):
+            for cs in (["41"], ["4142", "", "43"]):
+                yield {"method": method, "status": "200 OK", "chunks": cs, "range": t}
+
+# (3) validator combinations: method x status x ETag x Last-Modified x If-None-Match x If-Modified-Since
+def gen_validators():
+    etags = [None, ["a", False], ["a", True], ["b", False]]
+    inms = [None, "*", [["a", False]], [["a", True]], [["b", False]], [["b", True], ["a", False]], [["c", False], ["d", True]]]
+    dates = [None, T0 - 10, T0, T0 + 10]
+    for method in ("GET", "HEAD", "POST", "PUT"):
+        for status in ("200 OK", "404 Not Found"):
+            for etag in etags:
+                for inm in inms:
+                    for lm in (None, T0):
+                        for ims in dates:
+                            c = {"method": method, "status": status, "chunks": ["6162", "63"], "etag": etag, "lm": lm,
+                                 "inm": inm, "ims": ims, "extra": [["X-Extra", "1"], ["Vary", "Accept"]]}
+                            yield c
+                            if method in ("GET", "HEAD") and status == "200 OK":
+                                yield dict(c, range="bytes=1-1")
+
+# (4) Range x If-Range x ETag x Last-Modified x status x Content-Length x Content-Range x method
+def gen_ifrange():
+    etags = [None, ["a", False], ["a", True], ["b", False]]
+    ifrs = [None, ["tag", "a", False], ["tag", "a", True], ["tag", "b", False], ["date", T0 - 10], ["date", T0], ["date", T0 + 10],
+            ["raw", "yesterday GMT"], ["raw", "Sun, 06 Nov 1994 08:49:37"]]
+    for method in ("GET", "HEAD", "POST"):
+        for status in ("200 OK", "206 Partial Content", "404 Not Found"):
+            for etag in etags:
+                for lm in (None, T0):
+                    for ifr in ifrs:
+                        for clen, cr in ((True, None), (False, None), (True, "bytes 0-1/3")):
+                            for t in ("bytes=1-", "bytes=5-", "bytes=-2", "bytes=x"):
+                                yield {"method": method, "status": status, "chunks": ["61", "6263"], "etag": etag, "lm": lm,
+                                       "ifr": ifr, "clen": clen, "cr": cr, "range": t, "extra": [["X-Extra", "1"]]}
+
+# (5) empty opaque tag, odd header-name spellings
+def gen_corner():
+    for method in ("GET", "HEAD"):
+        yield {"method": method, "status": "200 OK", "chunks": ["61"], "etag": ["", False], "inm": [["", False]]}
+        yield {"method": method, "status": "200 OK", "chunks": ["61"], "etag": ["", False], "inm": [["a", False]], "lm": T0, "ims": T0}
+        yield {"method": method, "status": "200 OK", "chunks": ["6162"], "ctname": "content-TYPE", "clname": "CONTENT-length",
+               "range": "bytes=1-1", "extra": [["X-Content-Length", "9"]]}
+        yield {"method": method, "status": "200 OK", "chunks": ["6162"], "ctname": "content-TYPE", "clname": "CONTENT-length",
+               "inm": "*", "extra": [["X-Content-Length", "9"]]}
+        yield {"method": method, "status": "200 OK", "chunks": ["6162"], "ctname": "content-TYPE", "clname": "CONTENT-length",
+               "range": "bytes=7-", "extra": [["X-Content-Type", "9"]]}
+
+
+
 # =========================================================================== FileApp (static.py)
 def oracle_fileapp(tmpdir, data, method, rng_text, wrapper, bs, ims_delta=None, ifr_delta=None):
     """FileApp serves file `data`; the expected answer is derived from its own unconditional GET."""
@@ -718,6 +800,7 @@ def judge_arith(c):
 
 
 def run(ctx):
+    gen(ctx)                      # coq/Gen/C06_byterange.v from the source tree under test
     ctx.build(["Props/C06.vo"])
     quick = not ctx.thorough
 
@@ -801,8 +884,12 @@ def run(ctx):
     rng = ctx.sub_rng("corr-cond")
     lit = []
     n_cond = ctx.scale(700, 6000)
+    structured = list(gen_validators()) + list(gen_ifrange()) + list(gen_corner())
+    rng.shuffle(structured)
+    pending = structured[:ctx.scale(400, 3000)]
+    n_cond += len(pending)
     while len(lit) < n_cond:
-        case = rand_case(rng, 9)
+        case = pending.pop() if pending else rand_case(rng, 9)
         out = impl_call(case)
         if isinstance(out, Err):
             r = oracle_case(case)
@@ -827,91 +914,15 @@ def run(ctx):
                 ctx.fail(r[0], r[1], case, True, name)
         ctx.oracle_count(name, n, nt)
 
-    # (1) every body up to a small length x every chunking (one empty chunk anywhere) x structured ranges x GET/HEAD
-    def gen_slices():
-        maxlen = ctx.scale(4, 6)
-        for L in range(0, maxlen + 1):
-            data = bytes(range(65, 65 + L))
-            cks = chunkings(data, with_empty=(L <= 4))
-            texts_ = range_texts(L)
-            for cs in cks:
-                for t in texts_:
-                    for method in ("GET", "HEAD"):
-                        yield {"method": method, "status": "200 OK", "chunks": [c.hex() for c in cs], "range": t}
-            for kind in ("gen", "file", "wrapper"):
-                for bs in (1, 2, 3):
-                    for t in texts_:
-                        yield {"method": "GET", "status": "200 OK", "chunks": [data.hex()], "range": t, "iter": kind, "bs": bs}
-    sweep("slices", gen_slices())
-
-    # (2) every Range text "bytes"+w, w over a small alphabet, on 1- and 4-byte bodies
-    def gen_texts():
-        alpha_ = "019-=, "
-        maxw = ctx.scale(5, 7)
-        for n_ in range(0, maxw + 1):
-            for w in itertools.product(alpha_, repeat=n_):
-                t = "bytes" + "".join(w)
-                # only texts that get as far as "bytes=" modulo blanks can be honoured by anybody;
-                # the others are sampled 1 in 8
-                if "=" not in t and (zlib.crc32(t.encode()) & 7):
-                    continue
-                yield {"method": "GET", "status": "200 OK", "chunks": ["4142", "4344"], "range": t}
-        for t in MALFORMED + LENIENT:
-            for method in ("GET", "HEAD"):
-                for cs in (["41"], ["4142", "", "43"]):
-                    yield {"method": method, "status": "200 OK", "chunks": cs, "range": t}
-    sweep("range-texts", gen_texts())
-
-    # (3) validator combinations: method x status x ETag x Last-Modified x If-None-Match x If-Modified-Since
-    def gen_validators():
-        etags = [None, ["a", False], ["a", True], ["b", False]]
-        inms = [None, "*", [["a", False]], [["a", True]], [["b", False]], [["b", True], ["a", False]], [["c", False], ["d", True]]]
-        dates = [None, T0 - 10, T0, T0 + 10]
-        for method in ("GET", "HEAD", "POST", "PUT"):
-            for status in ("200 OK", "404 Not Found"):
-                for etag in etags:
-                    for inm in inms:
-                        for lm in (None, T0):
-                            for ims in dates:
-                                c = {"method": method, "status": status, "chunks": ["6162", "63"], "etag": etag, "lm": lm,
-                                     "inm": inm, "ims": ims, "extra": [["X-Extra", "1"], ["Vary", "Accept"]]}
-                                yield c
-                                if method in ("GET", "HEAD") and status == "200 OK":
-                                    yield dict(c, range="bytes=1-1")
+    sweep("slices", gen_slices(ctx))
+    sweep("range-texts", gen_texts(ctx))
     sweep("validators", gen_validators())
-
-    # (4) Range x If-Range x ETag x Last-Modified x status x Content-Length x Content-Range x method
-    def gen_ifrange():
-        etags = [None, ["a", False], ["a", True], ["b", False]]
-        ifrs = [None, ["tag", "a", False], ["tag", "a", True], ["tag", "b", False], ["date", T0 - 10], ["date", T0], ["date", T0 + 10],
-                ["raw", "yesterday GMT"], ["raw", "Sun, 06 Nov 1994 08:49:37"]]
-        for method in ("GET", "HEAD", "POST"):
-            for status in ("200 OK", "206 Partial Content", "404 Not Found"):
-                for etag in etags:
-                    for lm in (None, T0):
-                        for ifr in ifrs:
-                            for clen, cr in ((True, None), (False, None), (True, "bytes 0-1/3")):
-                                for t in ("bytes=1-", "bytes=5-", "bytes=-2", "bytes=x"):
-                                    yield {"method": method, "status": status, "chunks": ["61", "6263"], "etag": etag, "lm": lm,
-                                           "ifr": ifr, "clen": clen, "cr": cr, "range": t, "extra": [["X-Extra", "1"]]}
     sweep("if-range", gen_ifrange())
-
-    # (5) empty opaque tag, odd header-name spellings
-    def gen_corner():
-        for method in ("GET", "HEAD"):
-            yield {"method": method, "status": "200 OK", "chunks": ["61"], "etag": ["", False], "inm": [["", False]]}
-            yield {"method": method, "status": "200 OK", "chunks": ["61"], "etag": ["", False], "inm": [["a", False]], "lm": T0, "ims": T0}
-            yield {"method": method, "status": "200 OK", "chunks": ["6162"], "ctname": "content-TYPE", "clname": "CONTENT-length",
-                   "range": "bytes=1-1", "extra": [["X-Content-Length", "9"]]}
-            yield {"method": method, "status": "200 OK", "chunks": ["6162"], "ctname": "content-TYPE", "clname": "CONTENT-length",
-                   "inm": "*", "extra": [["X-Content-Length", "9"]]}
-            yield {"method": method, "status": "200 OK", "chunks": ["6162"], "ctname": "content-TYPE", "clname": "CONTENT-length",
-                   "range": "bytes=7-", "extra": [["X-Content-Type", "9"]]}
     sweep("corner", gen_corner())
 
     # (6) random larger cases
     rng = ctx.sub_rng("oracle-random")
-    sweep("random", (rand_case(rng, 40) for _ in range(ctx.scale(6000, 120000))))
+    sweep("random", (rand_case(rng, 40) for _ in range(ctx.scale(8000, 300000))))
 
     # (7) FileApp: real files around the block size, FileIter and wsgi.file_wrapper
     n = nt = 0
@@ -993,3 +1004,141 @@ def replay(ctx, path):
         return 1
     print("replay passes on the current tree")
     return 0
+
+
+# =========================================================================== gen: source -> coq/Gen/C06_byterange.v
+class Untranslatable(Exception):
+    pass
+
+
+def _pure(n):
+    import ast
+    return isinstance(n, (ast.Name, ast.Constant)) or (isinstance(n, ast.Attribute) and isinstance(n.value, ast.Name))
+
+
+def _expr(n):
+    """Python expression AST -> Coq term of type MiniPy.expr (fail-closed)."""
+    import ast
+    if isinstance(n, ast.Name):
+        return '(EVar "%s")' % n.id
+    if isinstance(n, ast.Attribute) and isinstance(n.value, ast.Name) and n.value.id == "self":
+        return '(EVar "self.%s")' % n.attr
+    if isinstance(n, ast.Constant):
+        if n.value is None:
+            return "ENone"
+        if n.value is True or n.value is False:
+            return "(EBool %s)" % cbool(n.value)
+        if isinstance(n.value, int):
+            return "(EInt (%d))" % n.value
+        raise Untranslatable("constant %r" % (n.value,))
+    if isinstance(n, ast.UnaryOp) and isinstance(n.op, ast.Not):
+        return "(ENot %s)" % _expr(n.operand)
+    if isinstance(n, ast.UnaryOp) and isinstance(n.op, ast.USub) and isinstance(n.operand, ast.Constant) \
+            and isinstance(n.operand.value, int):
+        return "(EInt (%d))" % -n.operand.value
+    if isinstance(n, ast.BoolOp):
+        op = "EAnd" if isinstance(n.op, ast.And) else "EOr"
+        out = _expr(n.values[-1])
+        for v in reversed(n.values[:-1]):
+            out = "(%s %s %s)" % (op, _expr(v), out)
+        return out
+    if isinstance(n, ast.BinOp) and isinstance(n.op, (ast.Add, ast.Sub)):
+        return "(%s %s %s)" % ("EAdd" if isinstance(n.op, ast.Add) else "ESub", _expr(n.left), _expr(n.right))
+    if isinstance(n, ast.Compare):
+        parts = []
+        left = n.left
+        for op, right in zip(n.ops, n.comparators):
+            if isinstance(op, (ast.Is, ast.IsNot)):
+                if not (isinstance(right, ast.Constant) and right.value is None):
+                    raise Untranslatable("`is` against something else than None")
+                parts.append("(%s %s)" % ("EIsNone" if isinstance(op, ast.Is) else "EIsNotNone", _expr(left)))
+            else:
+                names = {ast.Lt: "CLt", ast.LtE: "CLe", ast.Gt: "CGt", ast.GtE: "CGe", ast.Eq: "CEq", ast.NotEq: "CNe"}
+                if type(op) not in names:
+                    raise Untranslatable("comparison %s" % type(op).__name__)
+                parts.append("(ECmp %s %s %s)" % (names[type(op)], _expr(left), _expr(right)))
+            left = right
+        if len(parts) > 1 and not all(_pure(c) for c in n.comparators[:-1]):
+            raise Untranslatable("chained comparison over an impure middle operand")
+        out = parts[-1]
+        for p_ in reversed(parts[:-1]):
+            out = "(EAnd %s %s)" % (p_, out)
+        return out
+    if isinstance(n, ast.Tuple) and len(n.elts) == 2:
+        return "(EPair %s %s)" % (_expr(n.elts[0]), _expr(n.elts[1]))
+    if isinstance(n, ast.Call) and isinstance(n.func, ast.Name) and not n.keywords:
+        if n.func.id == "min" and len(n.args) == 2:
+            return "(EMin %s %s)" % (_expr(n.args[0]), _expr(n.args[1]))
+        return '(ECall "%s" %s)' % (n.func.id, clist(_expr(a) for a in n.args))
+    raise Untranslatable("expression %s" % type(n).__name__)
+
+
+def _block(stmts):
+    import ast
+    out = "SSkip"
+    for st in reversed(stmts):
+        if isinstance(st, ast.Expr) and isinstance(st.value, ast.Constant) and isinstance(st.value.value, str):
+            continue                                            # docstring
+        if isinstance(st, ast.Return):
+            t = "(SReturn %s)" % ("ENone" if st.value is None else _expr(st.value))
+        elif isinstance(st, ast.If):
+            t = "(SIf %s %s %s)" % (_expr(st.test), _block(st.body), _block(st.orelse))
+        elif isinstance(st, ast.Assign) and len(st.targets) == 1 and isinstance(st.targets[0], ast.Name):
+            t = '(SAssign "%s" %s)' % (st.targets[0].id, _expr(st.value))
+        elif isinstance(st, ast.Assign) and len(st.targets) == 1 and isinstance(st.targets[0], ast.Tuple) \
+                and isinstance(st.value, ast.Tuple) and len(st.value.elts) == len(st.targets[0].elts) \
+                and all(isinstance(x, ast.Name) for x in st.targets[0].elts) and all(_pure(v) for v in st.value.elts) \
+                and not ({x.id for x in st.targets[0].elts} & {v.id for v in st.value.elts if isinstance(v, ast.Name)}):
+            t = "SSkip"
+            for x, v in reversed(list(zip(st.targets[0].elts, st.value.elts))):
+                t = '(SSeq (SAssign "%s" %s) %s)' % (x.id, _expr(v), t)
+        elif isinstance(st, ast.AugAssign) and isinstance(st.op, ast.Add) and isinstance(st.target, ast.Name):
+            t = '(SAugAdd "%s" %s)' % (st.target.id, _expr(st.value))
+        else:
+            raise Untranslatable("statement %s" % type(st).__name__)
+        out = t if out == "SSkip" else "(SSeq %s %s)" % (t, out)
+    return out
+
+
+def translate_byterange(path):
+    import ast
+    tree = ast.parse(open(path).read())
+    fns = {}
+    for node in tree.body:
+        if isinstance(node, ast.FunctionDef):
+            fns[node.name] = node
+        if isinstance(node, ast.ClassDef):
+            for sub in node.body:
+                if isinstance(sub, ast.FunctionDef):
+                    fns["%s.%s" % (node.name, sub.name)] = sub
+    out = ["(* REGENERATED by harness/props/c06.py:gen from %s — do not edit. *)" % os.path.basename(path),
+           "From Coq Require Import ZArith List String.", "Require Import Webob.Lib.C06_MiniPy.",
+           "Import ListNotations.", "Local Open Scope string_scope.", "Local Open Scope Z_scope.", ""]
+    for name, cname in (("_is_content_range_valid", "valid"), ("Range.range_for_length", "rfl")):
+        f = fns.get(name)
+        if f is None:
+            raise Untranslatable("function %s not found" % name)
+        a = f.args
+        if a.vararg or a.kwarg or a.kwonlyargs or a.posonlyargs:
+            raise Untranslatable("signature of %s" % name)
+        params = [x.arg for x in a.args]
+        defaults = [_expr(d) for d in a.defaults]
+        out.append("Definition src_%s_params : list string := %s." % (cname, clist('"%s"' % p_ for p_ in params)))
+        out.append("Definition src_%s_defaults : list expr := %s." % (cname, clist(defaults)))
+        out.append("Definition src_%s_body : stmt :=\n  %s." % (cname, _block(f.body)))
+        out.append("")
+    return "\n".join(out) + "\n"
+
+
+def gen(ctx):
+    path = os.path.join(fw.REPO, "src", "webob", "byterange.py")
+    target = os.path.join(fw.COQ, "Gen", "C06_byterange.v")
+    try:
+        txt = translate_byterange(path)
+    except Exception as e:  # noqa  fail-closed: the obligation cannot be re-stated, so it is broken
+        ctx.broken.append("translator: byterange.py stepped outside the translated Python subset: %s" % e)
+        txt = ("(* translator failed: %s *)\nFrom Coq Require Import ZArith List String.\nRequire Import Webob.Lib.C06_MiniPy.\n"
+               "Import ListNotations.\nDefinition src_valid_params : list string := [].\nDefinition src_valid_defaults : list expr := [].\n"
+               "Definition src_valid_body : stmt := SSkip.\nDefinition src_rfl_params : list string := [].\n"
+               "Definition src_rfl_defaults : list expr := [].\nDefinition src_rfl_body : stmt := SSkip.\n" % str(e).replace("*)", "* )"))
+    fw.write_if_changed(target, txt)
